@@ -42,6 +42,11 @@ def _case(draw):
     share = draw(st.integers(0, 3)) == 0
     if share:
         spec = specs.with_repeats(draw, spec)
+    elif draw(st.integers(0, 4)) == 0:
+        # some nodes are user-defined types that forward to the built-in (one kind reports the wrong-type error itself,
+        # at the path it was handed)
+        from .c16 import _wrap
+        spec = _wrap(draw, spec, 0, "root")
     mode = draw(st.sampled_from(["near-multi", "near-multi", "near-multi", "multi", "multi", "near",
                                  "unrelated"]))
     try:
@@ -448,6 +453,24 @@ def check(case, ctx):
         ctx.label(f"kind:{name}@{'root' if depth == 0 else 'nested'}")
         if depth >= 1 and _siblings(v, ops_before) >= 2:
             nontrivial = True
+    # the texts the public entry points hand out carry every error's own rendering, unabridged and in order
+    if errors:
+        from d42 import ValidationException, validate_or_fail
+        from d42.validation import Formatter, format_result
+        rendered = [e.format(Formatter()) for e in errors]
+        texts = {"format_result": "\n".join(format_result(validate(S, v)))}
+        try:
+            validate_or_fail(S, v)
+            raise Violation("validate-or-fail-swallowed", f"validate_or_fail({S!r}, {v!r}) returned although validate reports {errors!r}")
+        except ValidationException as ex:
+            texts["validate_or_fail"] = str(ex)
+        for what, text in texts.items():
+            pos = 0
+            for m in rendered:
+                i = text.find(m, pos)
+                if i < 0:
+                    raise Violation("message-without-path", f"{what}: {text!r} lacks (in order) the rendering {m!r}")
+                pos = i + len(m)
     # (5) compositionality / no leakage between siblings
     want = _expected_composition(spec, S, v)
     if want is not None:
